@@ -205,6 +205,36 @@ def run_e2e_nb(rec):
     return "ok" if not bad else "fail(" + "; ".join(bad) + ")"
 
 
+def run_e2e_otherdoc(rec):
+    """NeighbourIndependent, across documents: the document defaults of ANOTHER document of the same invocation are not a
+    layer of this test case. The document under test is the second one given; the first one has defaults for the environment
+    variables, the stream and the CR LF handling (and one test case without output, which passes under any of them)."""
+    case = e2e_case(rec)
+    if case is None:
+        return "skip"
+    fm, inline, flags, command, exp, want_exit = case
+    if want_exit != 0 or "sleep" in command or "--cram-compat" in flags:
+        return "skip"
+    root = tempfile.mkdtemp(prefix="scrut-verif-cfgod-", dir=os.environ.get("VERIF_SCRATCH", "/tmp"))
+    try:
+        os.makedirs(os.path.join(root, "docs"))
+        first = os.path.join(root, "docs", "b-first.md")
+        with open(first, "w") as f:
+            f.write("\n".join(["---", "defaults:", "  output_stream: combined", "  keep_crlf: true", "  strip_ansi_escaping: true", "  environment:", "    X: X-o-val", "    Y: Y-o-val", "---", "",
+                               "# other", "", "```scrut", "$ true", "```", ""]))
+        lines = (["---"] + fm + ["---", ""] if fm else []) + ["# t", "", "```scrut" + (" " + inline if inline else ""), "$ " + command] + exp + ["```", ""]
+        path = os.path.join(root, "docs", "a-doc.md")
+        with open(path, "w") as f:
+            f.write("\n".join(lines))
+        code, out, err, wall, pid = scenario.run_scrut([first, path] + flags, root)
+        scenario.kill_group(pid)
+        if code != want_exit:
+            return f"fail(after another document with other defaults: exit {code}, expected {want_exit})"
+        return "ok"
+    finally:
+        shutil.rmtree(root, ignore_errors=True)
+
+
 def run(prop, tier, replay=None):
     t0 = time.time()
     work = workdir(f"{prop}-{tier}")
@@ -240,7 +270,13 @@ def run(prop, tier, replay=None):
         for r, e in zip(records, ex.map(run_e2e_nb, records)):
             r["obs"]["e2e_nb"] = e if e in ("ok", "skip") else "fail"
             r["obs"]["e2e_nb_detail"] = e
-    n_e2e = sum(1 for r in records if r["obs"]["e2e"] != "skip") + 2 * sum(1 for r in records if r["obs"]["e2e_nb"] != "skip")
+        for r, e in zip(records, ex.map(run_e2e_otherdoc, records)):
+            r["obs"]["e2e_od_detail"] = e
+            if e not in ("ok", "skip"):
+                r["obs"]["e2e_nb"] = "fail"
+            elif e == "ok" and r["obs"]["e2e_nb"] == "skip":
+                r["obs"]["e2e_nb"] = "ok"
+    n_e2e = sum(1 for r in records if r["obs"]["e2e"] != "skip") + 2 * sum(1 for r in records if str(r["obs"].get("e2e_nb_detail", "skip")) != "skip") + sum(1 for r in records if str(r["obs"].get("e2e_od_detail", "skip")) != "skip")
     results, printed = tlc_validate_sharded("ConfigTrace", "ConfigTrace.cfg", records, work, shards=min(NCPU, 6),
                                             slim=lambda r: {k: r[k] for k in ("ev", "id", "cli", "tc", "doc", "fmt")} | {"obs": {k: r["obs"][k] for k in ("eff", "associative", "identity", "lists_ok", "e2e", "e2e_nb")}})
     for r in results:
@@ -273,8 +309,10 @@ def run(prop, tier, replay=None):
         if o["e2e"] == "fail":
             bad.append("end-to-end:" + ("environment" if any(r[l]["env"][e] != "U" for l in ("tc", "doc") for e in ("X", "Y")) else
                                         next((k for k in KEYS if any(r[l]["scalar"][k] != "U" for l in ("cli", "tc", "doc"))), "format-default")))
-        if o.get("e2e_nb") == "fail":
+        if o.get("e2e_nb") == "fail" and str(o.get("e2e_nb_detail", "")).startswith("fail"):
             bad.append("end-to-end:environment:not-in-effect-after-a-test-case-that-ran-with-another-value-of-the-variable")
+        if o.get("e2e_nb") == "fail" and str(o.get("e2e_od_detail", "")).startswith("fail"):
+            bad.append("end-to-end:defaults-of-another-document-of-the-invocation-in-effect")
         for b in sorted(set(bad)) or ["unclassified"]:
             V.violation(b, WHAT, {"vector": {k: r[k] for k in ("cli", "tc", "doc", "fmt")}, "observed": o})
     code, nviol, known = V.finish()
